@@ -85,7 +85,7 @@ def eligible(fi):
         if unparse(d) not in ("staticmethod", "classmethod"):
             return False
     a = n.args
-    if a.vararg or a.posonlyargs:
+    if a.vararg:
         return False
     # (a **kwargs parameter is bound to the dict of the call's surplus keywords, see Expander._bind)
     for d in list(a.defaults) + [d for d in a.kw_defaults if d is not None]:
@@ -101,6 +101,11 @@ def eligible(fi):
         if isinstance(x, ast.Call) and dotted(x.func) in ("locals", "vars", "globals", "super"):
             return False
     return True
+
+
+def recv_param_name(a):
+    allp = [x.arg for x in a.posonlyargs] + [x.arg for x in a.args]
+    return allp[0] if allp else None
 
 
 def _kind(fi):
@@ -253,13 +258,16 @@ class Expander:
         self.unknown = unknown  # key -> FunctionInfo
         self.counter = 0
         self.log = []           # (caller key, callee key, mode)
+        self._foreign_memo = {}
+        self.imports_needed = {}    # rel -> {local name: dotted target}: what expanded bodies from other modules refer to
 
     # -- binding ---------------------------------------------------------------------------------------------------
     def _bind(self, callee, call, caller_names):
         """-> (mapping param->expr for direct substitution, prelude statements, rename map)"""
         fnode = callee.node
         a = fnode.args
-        params = [x.arg for x in a.args]
+        posonly = [x.arg for x in a.posonlyargs]
+        params = posonly + [x.arg for x in a.args]
         kind = _kind(callee)
         mapping, pre = {}, []
         values = {}
@@ -283,15 +291,40 @@ class Expander:
                     values[recv_param] = f.value
             else:
                 values[recv_param] = ast.Name(id=callee.cls.name, ctx=ast.Load())
-        if any(isinstance(x, ast.Starred) for x in call.args) or any(kw.arg is None for kw in call.keywords):
+        if any(isinstance(x, ast.Starred) for x in call.args):
             raise NotInlinable("star args")
+        kwonly = [x.arg for x in a.kwonlyargs]
+        if any(kw.arg is None for kw in call.keywords):
+            # f(..., **m): m is handed on to the callee's ** parameter.  A key of m that names a parameter of the callee would be bound to that
+            # parameter (or raise "multiple values"); that is excluded when m is the caller's own ** parameter and every nameable parameter of
+            # the callee is also a named parameter of the caller (then m cannot hold it), or the callee has no nameable parameter at all
+            if a.kwarg is None:
+                raise NotInlinable("star args")
+            from .model import enclosing_function
+            cf = enclosing_function(call)
+            cparams = set()
+            ckw = None
+            if isinstance(cf, (ast.FunctionDef, ast.AsyncFunctionDef)):
+                cparams = {x.arg for x in cf.args.args + cf.args.kwonlyargs}
+                ckw = cf.args.kwarg.arg if cf.args.kwarg is not None else None
+            nameable = [p_ for p_ in params if p_ not in posonly] + kwonly
+            for kw in call.keywords:
+                if kw.arg is None and not (isinstance(kw.value, ast.Name) and kw.value.id == ckw and all(p_ in cparams for p_ in nameable)):
+                    raise NotInlinable("star args")
         if len(call.args) > len(params):
             raise NotInlinable("too many args")
         for p, v in zip(params, call.args):
             values[p] = v
-        kwonly = [x.arg for x in a.kwonlyargs]
         surplus = []
         for kw in call.keywords:
+            if kw.arg is None:
+                surplus.append(kw)
+                continue
+            if kw.arg in posonly:
+                if a.kwarg is None:
+                    raise NotInlinable("keyword")
+                surplus.append(kw)
+                continue
             if kw.arg in values:
                 raise NotInlinable("keyword")
             if kw.arg not in params + kwonly:
@@ -301,13 +334,13 @@ class Expander:
                 continue
             values[kw.arg] = kw.value
         if a.kwarg is not None:
-            # **kw  :=  {"k1": v1, ...} of the keywords no parameter takes
-            values[a.kwarg.arg] = ast.Dict(keys=[ast.Constant(value=k.arg) for k in surplus], values=[k.value for k in surplus])
+            # **kw  :=  {"k1": v1, **m, ...} of the keywords no parameter takes
+            values[a.kwarg.arg] = ast.Dict(keys=[ast.Constant(value=k.arg) if k.arg is not None else None for k in surplus], values=[k.value for k in surplus])
         defaults = dict(zip(params[len(params) - len(a.defaults):], a.defaults)) if a.defaults else {}
         for p, d in zip(kwonly, a.kw_defaults):
             if d is not None:
                 defaults[p] = d
-        all_params = ([x.arg for x in a.args][:1] if kind in ("method", "class") else []) + params + kwonly + ([a.kwarg.arg] if a.kwarg is not None else [])
+        all_params = (([x.arg for x in a.posonlyargs] + [x.arg for x in a.args])[:1] if kind in ("method", "class") else []) + params + kwonly + ([a.kwarg.arg] if a.kwarg is not None else [])
         for p in all_params:
             if p not in values:
                 if p not in defaults:
@@ -392,13 +425,56 @@ class Expander:
             return None
         if is_simple_generator(r.node) != generator:
             return None
-        if r.module is not caller.module:
+        if r.module is not caller.module and self._foreign_names(r, caller) is None:
             return None
         if r.is_async != awaited:
             return None
         if r.node is caller.node:
             return None
         return r
+
+    def _foreign_names(self, r, caller):
+        """A helper that lives in another module can be expanded when every global name its body uses means the same thing in the caller's
+        module: imported there under the same name from the same place, or not in use there at all (then the import is added).
+        -> {local name: dotted target} to import, or None."""
+        import builtins
+        if r.cls is not None or r.outer is not None:
+            return None
+        key = (r.key, caller.module.rel)
+        if key in self._foreign_memo:
+            return self._foreign_memo[key]
+        src, dst = r.module, caller.module
+        local = _stored_names(r.node.body) | {a.arg for a in ast.walk(r.node.args) if isinstance(a, ast.arg)} | _comp_names(r.node.body)
+        need = {}
+        ok = True
+        for x in ast.walk(r.node):
+            if not (isinstance(x, ast.Name) and isinstance(x.ctx, ast.Load)) or x.id in local:
+                continue
+            nm = x.id
+            if nm in src.imports:
+                tgt = src.imports[nm]
+            elif nm in src.functions or nm in src.classes or nm in src.globals:
+                tgt = src.rel[:-3].replace("/", ".").removesuffix(".__init__") + "." + nm
+            elif hasattr(builtins, nm):
+                if nm in dst.imports or nm in dst.functions or nm in dst.classes or nm in dst.globals:
+                    ok = False
+                continue
+            else:
+                ok = False
+                continue
+            cur = dst.imports.get(nm)
+            if cur == tgt:
+                continue
+            if cur is None and nm not in dst.functions and nm not in dst.classes and nm not in dst.globals and \
+                    not any(isinstance(y, ast.Name) and y.id == nm and isinstance(y.ctx, ast.Store) for y in ast.walk(dst.tree)):
+                need[nm] = tgt
+            else:
+                ok = False
+        res = need if ok else None
+        self._foreign_memo[key] = res
+        if res:
+            self.imports_needed.setdefault(dst.rel, {}).update(res)
+        return res
 
     @staticmethod
     def _call_of(value):
@@ -2368,6 +2444,65 @@ def lower_tuples_and_records(repo, rebuild):
     return len(changed)
 
 
+def _constants_only_class(node):
+    if node.bases or node.keywords or node.decorator_list:
+        return False
+    for st in node.body:
+        if isinstance(st, ast.Pass) or (isinstance(st, ast.Expr) and isinstance(st.value, ast.Constant)):
+            continue
+        if isinstance(st, ast.Assign) and all(isinstance(t, ast.Name) for t in st.targets) and isinstance(st.value, ast.Constant):
+            continue
+        if isinstance(st, ast.AnnAssign) and isinstance(st.target, ast.Name) and isinstance(st.value, ast.Constant):
+            continue
+        return False
+    return True
+
+
+def moved_definitions_normal_form(repo, known, rebuild):
+    """A class of named constants that the reference lists in module M, and that M now imports under the same name from another module of the
+    repository (where it is new), is put back: a copy of the definition replaces the import.  Only classes whose body is constant assignments
+    qualify - for those, one shared class object and two copies cannot be told apart."""
+    notes, changed = [], set()
+    for ck in known.get("class_attrs", {}):
+        rel, cn = ck.split("::", 1)
+        m = repo.modules.get(rel)
+        if m is None or cn in m.classes:
+            continue
+        tgt = m.imports.get(cn)
+        if not tgt or "." not in tgt or tgt.rsplit(".", 1)[1] != cn:
+            continue
+        src_rel = tgt.rsplit(".", 1)[0].replace(".", "/") + ".py"
+        m2 = repo.modules.get(src_rel) or repo.modules.get(tgt.rsplit(".", 1)[0].replace(".", "/") + "/__init__.py")
+        if m2 is None or cn not in m2.classes or ("%s::%s" % (m2.rel, cn)) in known.get("class_attrs", {}):
+            continue
+        node = m2.classes[cn].node
+        if not _constants_only_class(node):
+            continue
+        # drop the import of the name, put a copy of the class after the last top-level import
+        last_imp = -1
+        for i, st in enumerate(list(m.tree.body)):
+            if isinstance(st, (ast.Import, ast.ImportFrom)):
+                last_imp = i
+        for st in list(m.tree.body):
+            if isinstance(st, ast.ImportFrom):
+                keep = [a for a in st.names if (a.asname or a.name) != cn]
+                if len(keep) != len(st.names):
+                    if keep:
+                        st.names = keep
+                    else:
+                        idx = m.tree.body.index(st)
+                        m.tree.body.remove(st)
+                        if idx <= last_imp:
+                            last_imp -= 1
+        m.tree.body.insert(last_imp + 1, copy.deepcopy(node))
+        ast.fix_missing_locations(m.tree)
+        changed.add(rel)
+        notes.append("constants class %s, moved to %s and imported from there, put back into %s" % (cn, m2.rel, rel))
+    if changed:
+        rebuild(repo, changed)
+    return notes
+
+
 def normalize(repo, rebuild):
     """Expand unknown helpers/constants in `repo` (a raw Repo).  `rebuild(repo, rels)` re-indexes the changed modules.
 
@@ -2375,6 +2510,7 @@ def normalize(repo, rebuild):
     known = load_known()
     notes = []
     changed = set()
+    notes += moved_definitions_normal_form(repo, known, rebuild)
     notes += rename_normal_form(repo, known, rebuild)
     notes += import_normal_form(repo, known, rebuild)
 
@@ -2430,6 +2566,22 @@ def normalize(repo, rebuild):
                     round_changed.add(rel)
         if not ex.log:
             break
+        for rel, need in ex.imports_needed.items():
+            if rel not in round_changed:
+                continue
+            m = repo.modules[rel]
+            used = {x.id for x in ast.walk(m.tree) if isinstance(x, ast.Name)}
+            new_imports = []
+            for local, tgt in sorted(need.items()):
+                if local not in used or local in m.imports:
+                    continue
+                if "." in tgt:
+                    mod_, last = tgt.rsplit(".", 1)
+                    new_imports.append(ast.ImportFrom(module=mod_, names=[ast.alias(name=last, asname=local if local != last else None)], level=0))
+                else:
+                    new_imports.append(ast.Import(names=[ast.alias(name=tgt, asname=local if local != tgt else None)]))
+            pos = 1 if m.tree.body and isinstance(m.tree.body[0], ast.Expr) and isinstance(getattr(m.tree.body[0], "value", None), ast.Constant) else 0
+            m.tree.body[pos:pos] = new_imports
         for rel in round_changed:
             ast.fix_missing_locations(repo.modules[rel].tree)
         rebuild(repo, round_changed)
